@@ -91,7 +91,7 @@ Proof. exact tokenise_items. Qed.
    r,i,a,m and a leading dot; integer parameters: the full range of the C type;
    strings: any NUL-free bytes. *)
 Theorem entry_roundtrip_raw : forall c name t v,
-  ctx_ok c -> name_ok c name -> type_ok c t -> 1 <= v < 2 ^ 32 ->
+  ctx_ok c -> name_ok c name -> top_name c name -> type_ok c t -> 1 <= v < 2 ^ 32 ->
   parse_line (rctx_of c) (print_entry c (ERaw name t (SLit v))) = Some (ERaw name t (SLit v)).
 Proof. exact raw_roundtrip. Qed.
 
@@ -150,6 +150,17 @@ Theorem entry_roundtrip_lincom1 : forall c name inf m b,
   parse_line (rctx_of c) (print_entry c (ELincom name comp [(inf, SLit m, SLit b)]))
   = Some (ELincom name comp [(inf, SLit m, SLit b)]).
 Proof. exact lincom1_roundtrip. Qed.
+
+(* metafields: from Standards Version 7 on a name parent/subfield is a name
+   (name_ok is stated with valid_field), so every entry theorem except RAW
+   (META RAW is prohibited: top_name) covers metafield lines *)
+Example metafield_name_ok : name_ok (ctx 10 17) (bytes_of_string "par ent/sub#1") /\
+                            top_name (ctx 10 17) (bytes_of_string "par ent/sub#1") -> False.
+Proof.
+  intros [_ H]. vm_compute in H. discriminate.
+Qed.
+Example metafield_name_ok' : name_ok (ctx 10 17) (bytes_of_string "par ent/sub#1").
+Proof. split; [apply no_nul_b; reflexivity | vm_compute; reflexivity]. Qed.
 
 (* the hypotheses are satisfiable *)
 Example entry_roundtrip_hyps_sat :
@@ -301,7 +312,7 @@ Proof. exact sarray_roundtrip. Qed.
 
 (* scalar parameters that are literals or scalar field codes *)
 Theorem entry_roundtrip_raw_sv : forall c name t spf,
-  ctx_ok c -> name_ok c name -> type_ok c t -> isv_ok c 1 (2 ^ 32) spf ->
+  ctx_ok c -> name_ok c name -> top_name c name -> type_ok c t -> isv_ok c 1 (2 ^ 32) spf ->
   parse_line (rctx_of c) (print_entry c (ERaw name t spf)) = Some (ERaw name t spf).
 Proof. exact raw_roundtrip_sv. Qed.
 
